@@ -498,12 +498,17 @@ def main_conc(pid, tier, replay, seed):
     served, race_found = 0, None
     for k in range(seeds):
         env = dict(GOENV, GORACE="halt_on_error=1 exitcode=66")
-        rc, out = sh([hexe, "-race", scen, "-seconds", str(secs), "-seed", str(seed * 100 + k)], env=env, timeout=secs * 10 + 600)
+        try:
+            rc, out = sh([hexe, "-race", scen, "-seconds", str(secs), "-seed", str(seed * 100 + k)], env=env, timeout=secs * 4 + 90)
+        except subprocess.TimeoutExpired as ex:
+            # the scenario did not finish long after its deadline: goroutines are stuck (e.g. a recursive read
+            # lock with a writer waiting) - a liveness failure of the lock protocol
+            rc, out = 124, "the stress scenario hung (deadlock): no exit %ds after its %ss deadline\n%s" % (secs * 3 + 90, secs, (ex.stdout or "")[-2000:] if isinstance(ex.stdout, str) else "")
         m = re.search(r"(?:served|iterations)=(\d+)", out)
         served += int(m.group(1)) if m else 0
         if rc != 0:
             kind = "data race reported by the race detector" if rc == 66 or "DATA RACE" in out else \
-                ("inadmissible response" if rc == 3 else "runtime fault (exit %d)" % rc)
+                ("inadmissible response" if rc == 3 else ("hang / deadlock" if rc == 124 else "runtime fault (exit %d)" % rc))
             race_found = {"property": pid, "scenario": scen, "seed": seed * 100 + k, "seconds": secs, "what": kind,
                           "broken_obligation": broken, "discipline_violations": diag, "output": out[-6000:]}
             break
